@@ -251,6 +251,19 @@ func Garbage(kind string, valid []byte, r *rand.Rand) []byte {
 		return b[:minInt(len(b), 6)]
 	case "zeros":
 		return make([]byte, 3)
+	case "dl-nas-header", "unsolicited-header":
+		// the header of a message an AMF may send unsolicited at any time (the one an emulator is most tempted to skip while
+		// waiting for its answer), followed by a length beyond the data and noise: not a decodable PDU
+		code := byte(4) // id-DownlinkNASTransport
+		if strings.HasPrefix(strings.TrimPrefix(kind, "garbage:"), "unsolicited") {
+			code = []byte{9, 24, 1, 20, 0, 41, 22, 36, 3, 16, 43}[r.Intn(11)] // ErrorIndication, Paging, AMFStatusIndication, NGReset, AMFConfigurationUpdate, UEContextRelease, OverloadStart, RerouteNASRequest, DeactivateTrace, LocationReportingControl, UERadioCapabilityCheck
+		}
+		b := append([]byte{0x00, code, 0x40, 0x7f}, make([]byte, 4+r.Intn(20))...)
+		r.Read(b[4:])
+		if r.Intn(3) == 0 {
+			b = b[:2+r.Intn(2)] // cut right after the header
+		}
+		return b
 	case "other-type-truncated": // starts like a message of ANOTHER procedure (decodes partially before failing), cut in half
 		b := append([]byte(nil), valid[:len(valid)/2+1]...)
 		heads := [][2]byte{{0x00, 0x04}, {0x00, 0x0e}, {0x00, 0x1d}, {0x20, 0x15}, {0x00, 0x29}, {0x00, 0x1c}, {0x20, 0x0e}}
@@ -267,7 +280,7 @@ func Garbage(kind string, valid []byte, r *rand.Rand) []byte {
 	}
 }
 
-var GarbageKinds = []string{"garbage:one-octet", "garbage:random32", "garbage:truncated-half", "garbage:choice3", "garbage:random2048", "garbage:bad-length", "garbage:zeros", "garbage:truncated-1", "garbage:random2047", "garbage:random8192", "garbage:other-type-truncated"}
+var GarbageKinds = []string{"garbage:one-octet", "garbage:random32", "garbage:truncated-half", "garbage:choice3", "garbage:random2048", "garbage:bad-length", "garbage:zeros", "garbage:truncated-1", "garbage:random2047", "garbage:random8192", "garbage:other-type-truncated", "garbage:dl-nas-header", "garbage:unsolicited-header"}
 
 func minInt(a, b int) int {
 	if a < b {
